@@ -635,6 +635,7 @@ func generate(r *mon.Run, cfg string) []Case {
 	genTruncatedPush(add)
 	genRecursion(r, cfg, add)
 	genCreateLoops(r, cfg, add)
+	genSubcalls(cfg, add)
 	genMemExtremes(r, cfg, add)
 	genSweeps(r, cfg, add)
 	genCustom(r, cfg, add)
@@ -742,6 +743,69 @@ func genRecursion(r *mon.Run, cfg string, add func(Case)) {
 		}
 		add(c)
 	}
+}
+
+// every call-type op x every way a callee can end x how much gas it was given;
+// the caller keeps stepping afterwards so that its gas after the call is observed
+func genSubcalls(cfg string, add func(Case)) {
+	outcomes := []struct {
+		name string
+		code []byte
+	}{
+		{"stop", []byte{opSTOP}},
+		{"return32", (&asm{}).pushU(7).pushU(0).op(opMSTORE).pushU(32).pushU(0).op(opRETURN).bytes()},
+		{"revert0", (&asm{}).pushU(0).pushU(0).op(opREVERT).bytes()},
+		{"revert32", (&asm{}).pushU(7).pushU(0).op(opMSTORE).pushU(32).pushU(0).op(opREVERT).bytes()},
+		{"invalid", []byte{opINVALID}},
+		{"underflow", []byte{opADD}},
+		{"loop", []byte{opJUMPDEST, opPUSH1, 0, opJUMP}},
+		{"selfdestruct", (&asm{}).pushU(0).op(opSELFDESTRUCT).bytes()},
+		{"sstore-revert", (&asm{}).pushU(1).pushU(1).op(opSSTORE).pushU(0).pushU(0).op(opREVERT).bytes()},
+		{"nested-revert", append(forwarder(opCALL, new(big.Int).SetBytes(auxBAddr.Bytes()), 0)[:0:0], (&asm{}).pushU(0).pushU(0).pushU(0).pushU(0).pushU(0).pushAddr(auxBAddr).op(opGAS, opCALL).pushU(0).pushU(0).op(opREVERT).bytes()...)},
+	}
+	var commit [32]byte
+	commit[0] = 0x5c
+	blob, authority := authBlob(targetAddr, commit, true, false)
+	for _, op := range []byte{opCALL, opCALLCODE, opDELEGATECALL, opSTATICCALL, opAUTHCALL} {
+		for _, oc := range outcomes {
+			for gi, garg := range []*big.Int{nil, bigU(50000), bigU(0), pow2m1(256)} {
+				for _, value := range []uint64{0, 1} {
+					if value == 1 && (op == opDELEGATECALL || op == opSTATICCALL) {
+						continue
+					}
+					a := &asm{}
+					if op == opAUTHCALL {
+						a.fillMem(blob).pushU(128).pushU(0).pushAddr(authority).op(opAUTH, opPOP)
+						a.pushU(32).pushU(0).pushU(0).pushU(0).pushU(0).pushU(value).pushAddr(auxAAddr)
+					} else {
+						a.pushU(32).pushU(0).pushU(0).pushU(0)
+						if op == opCALL || op == opCALLCODE {
+							a.pushU(value)
+						}
+						a.pushAddr(auxAAddr)
+					}
+					if garg == nil {
+						a.op(opGAS)
+					} else {
+						a.push(garg)
+					}
+					if op == opAUTHCALL {
+						a.pushU(0) // the authority's nonce in the fresh state
+					}
+					a.op(op)
+					a.pushU(1).op(opADD, opGAS, opPOP, opRETURNDATASIZE, opPOP).returnTop()
+					for _, gas := range []uint64{100000, 2000000} {
+						if gi > 1 && gas == 100000 {
+							continue
+						}
+						add(Case{Fam: "subcall", Tag: fmt.Sprintf("%s/%s", opName(op), oc.name), Code: a.bytes(), Gas: gas,
+							Aux: []Acct{{Addr: auxAAddr.GetHexString(), Code: oc.code}, {Addr: auxBAddr.GetHexString(), Code: outcomes[2].code}}})
+					}
+				}
+			}
+		}
+	}
+	_ = cfg
 }
 
 func genCreateLoops(r *mon.Run, cfg string, add func(Case)) {
